@@ -42,8 +42,9 @@ Judge(rec) ==
   IF "died" \in DOMAIN o THEN {"total"}
   ELSE
     LET G == rec.g
-        ProgIdx(g) == IF rec.kind = "invoke" \/ (rec.kind = "mixed" /\ g % 2 = 0) THEN 1 ELSE g
-        Spec(g) == Run2(rec.progs[ProgIdx(g)], InEnv(Override(StdEnvIn(rec.envid), rec.ovs[g])), StdPre(rec.envid), StdPost(rec.envid))
+        ProgIdx(g) == IF rec.kind \in {"invoke", "shared"} \/ (rec.kind = "mixed" /\ g % 2 = 0) THEN 1 ELSE g
+        EnvIx(g) == IF rec.kind = "shared" THEN 1 ELSE g        \* shared: one environment object for all
+        Spec(g) == Run2(rec.progs[ProgIdx(g)], InEnv(Override(StdEnvIn(rec.envid), rec.ovs[EnvIx(g)])), StdPre(rec.envid), StdPost(rec.envid))
         SpecBad(g) == LET run == Spec(g) a == o.alone[g] IN
                       \/ run.acc # (a.class # "reject")
                       \/ run.acc /\ run.r.st = "ok" /\ ~(a.class = "value" /\ NormVal(a.v) = NormVal(Proj(run.r.v)))
